@@ -255,6 +255,16 @@ func (v *Validators) SetNewValidators(candidates []*candidates.Candidate) {
 		})
 	}
 
+	// accrued rewards of validators leaving the set must not vanish
+	for _, oldVal := range old {
+		if _, removed := oldValidatorsForRemove[oldVal.PubKey]; removed {
+			if accum := big.NewInt(0).Set(oldVal.GetAccumReward()); accum.Sign() == 1 {
+				oldVal.SetAccumReward(big.NewInt(0))
+				v.bus.App().AddTotalSlashed(accum)
+			}
+		}
+	}
+
 	v.lock.Lock()
 	v.removed = oldValidatorsForRemove
 	v.lock.Unlock()
